@@ -208,7 +208,7 @@ fn stage(i: &Input, c: &mut Case) -> Result<(), String> {
 pub const STAGES: &[Stage] = &[Stage { name: "presentations", f: stage }];
 
 pub fn run(rc: &mut RunCtx) {
-    rc.run_pt(STAGES[0], rc.pick(80_000, 1_500_000), (96, 640));
+    rc.run_pt(STAGES[0], rc.pick(320_000, 1_500_000), (96, 640));
     for l in ["full_contains_master", "width_not_minimal", "two_or_more_partial_writes", "deprecated_unknown_call"] {
         rc.require_label("presentations", l, 20_000);
     }
